@@ -48,7 +48,9 @@ class Channel {
     }
 
     Channel& operator << (const T &value) {
-        if (queue_.empty() && !token_.empty()) {
+        //! 每放入一个数据都要唤醒一个等待者。如果只在"由空变为非空"时才唤醒，
+        //! 连续放入多个数据时，排在后面的等待者就永远不会被唤醒
+        if (!token_.empty()) {
             auto t = token_.front();
             token_.pop();
             sch_.resume(t);
